@@ -1,30 +1,31 @@
 #!/bin/bash
 # tools/confirm_seed.sh <id> [features]  — confirms a seeded change in its scratch worktree
-# /tmp/seed/<id>: (1) same passing tests as the baseline, (2) demo fails with the change and
+# $SEED_ROOT/<id> (default /tmp/seed; results go to /verif/seeded/$OUT_ID, default <id>): (1) same passing tests as the baseline, (2) demo fails with the change and
 # passes without it; then stores patch + demo under /verif/seeded/<id>/ and removes build output.
 set -u
 id=$1; feat=${2:-}
-wt=/tmp/seed/$id
-out=/verif/seeded/$id
+root=${SEED_ROOT:-/tmp/seed}
+wt=$root/$id
+out=/verif/seeded/${OUT_ID:-$id}
 mkdir -p $out
 git -C $wt diff > $out/patch.diff
 [ -s $out/patch.diff ] || { echo "no patch in $wt"; exit 2; }
 cd $wt
 export CARGO_NET_OFFLINE=true
 echo "== tests with the change"
-cargo test --workspace --offline --no-fail-fast 2>&1 | grep -E "^test .* ok$" | sort > /tmp/seed/$id.pass.txt
-if diff -q /tmp/seed/baseline_pass.txt /tmp/seed/$id.pass.txt >/dev/null; then echo "TESTS: same $(wc -l < /tmp/seed/$id.pass.txt) passing tests"; else echo "TESTS: DIFFER"; diff /tmp/seed/baseline_pass.txt /tmp/seed/$id.pass.txt | head; fi
+cargo test --workspace --offline --no-fail-fast 2>&1 | grep -E "^test .* ok$" | sort > $root/$id.pass.txt
+if diff -q $root/baseline_pass.txt $root/$id.pass.txt >/dev/null; then echo "TESTS: same $(wc -l < $root/$id.pass.txt) passing tests"; else echo "TESTS: DIFFER"; diff $root/baseline_pass.txt $root/$id.pass.txt | head; fi
 echo "== demo with the change"
-(cd demo && cp ../Cargo.lock . 2>/dev/null; cargo run --offline $feat -q > /tmp/seed/$id.demo_with.txt 2>&1; echo "exit=$?" >> /tmp/seed/$id.demo_with.txt)
-tail -3 /tmp/seed/$id.demo_with.txt
+(cd demo && cp ../Cargo.lock . 2>/dev/null; cargo run --offline $feat -q > $root/$id.demo_with.txt 2>&1; echo "exit=$?" >> $root/$id.demo_with.txt)
+tail -3 $root/$id.demo_with.txt
 echo "== demo without the change"
 # (git stash is shared by all worktrees of one repository: never use it here)
 git apply -R $out/patch.diff
 find src -name '*.rs' -newer $out/patch.diff -exec touch {} + 2>/dev/null; touch src/lib.rs
-(cd demo && cargo run --offline $feat -q > /tmp/seed/$id.demo_without.txt 2>&1; echo "exit=$?" >> /tmp/seed/$id.demo_without.txt)
+(cd demo && cargo run --offline $feat -q > $root/$id.demo_without.txt 2>&1; echo "exit=$?" >> $root/$id.demo_without.txt)
 git apply $out/patch.diff
 touch src/lib.rs
-tail -3 /tmp/seed/$id.demo_without.txt
+tail -3 $root/$id.demo_without.txt
 rm -rf $out/demo; mkdir -p $out/demo
 rsync -a --exclude target $wt/demo/ $out/demo/
 rm -rf $wt/target $wt/demo/target
